@@ -15,6 +15,7 @@ Definition res_eqb (a b : res) : bool :=
   | RRecv (Some m), RRecv (Some n) => msg_eqb m n
   | RClosed, RClosed => true
   | RIs x, RIs y => Bool.eqb x y
+  | RNum x, RNum y => Nat.eqb x y
   | _, _ => false
   end.
 Definition status_match (st : status) (o : obs) : bool :=
@@ -129,15 +130,42 @@ Fixpoint after_close_ok (closed began : bool) (evs : list (nat * obs)) : bool :=
       end
   end.
 
+(* deadlock oracle (deadlock_shape / queries_never_block on the implementation): walking the rounds with the number
+   of calls every thread has completed, a thread whose current call is IsClosed/Len/Cap is never reported blocked;
+   and in the LAST round (nothing releasable is left: the blocked threads are deadlocked) the blocked threads'
+   current calls are either all Receive, or none of them is a Receive *)
+Definition cur_op (c : tcase) (doneN : list nat) (t : nat) : option op := nth_error (nth t (t_progs c) []) (nth t doneN 0).
+Fixpoint bump (l : list nat) (t : nat) : list nat :=
+  match l, t with [], _ => [] | x :: r, O => S x :: r | x :: r, S j => x :: bump r j end.
+Definition count_round (doneN : list nat) (r : round) : list nat :=
+  fold_left (fun d e => match snd e with OR _ | OP => bump d (fst e) | OY _ => d end) (r_events r) doneN.
+Definition is_query (o : option op) : bool := match o with Some OIsClosed | Some OLen | Some OCap => true | _ => false end.
+Definition is_recv (o : option op) : bool := match o with Some ORecv => true | _ => false end.
+Fixpoint deadlock_ok_from (c : tcase) (doneN : list nat) (rs : list round) : bool :=
+  match rs with
+  | [] => true
+  | r :: rest =>
+      let d := count_round doneN r in
+      let ops := map (cur_op c d) (r_blocked r) in
+      negb (existsb is_query ops) &&
+      (match rest with
+       | [] => forallb is_recv ops || negb (existsb is_recv ops)
+       | _ => true
+       end) && deadlock_ok_from c d rest
+  end.
+Definition deadlock_ok (c : tcase) : bool := deadlock_ok_from c (repeat 0 (List.length (t_progs c))) (t_rounds c).
+
 (* failing clauses: 1 model/implementation disagree (tie), 2 panic (no_crash), 3 received twice / never sent
-   (recv_at_most_once, recv_subset_sent), 4 per-sender order, 5 lost although drained, 6 after-close behaviour *)
+   (recv_at_most_once, recv_subset_sent), 4 per-sender order, 5 lost although drained, 6 after-close behaviour,
+   7 a query call blocked / a deadlock that holds back a receiver (deadlock_shape) *)
 Definition check_trace (c : tcase) : list nat :=
   ((if replay (init (t_cap c) (t_progs c)) [] (t_rounds c) then [] else [1]) ++
    (if no_panic c then [] else [2]) ++
    (if once_ok c && sent_really c then [] else [3]) ++
    (if order_ok c then [] else [4]) ++
    (if drained_ok c then [] else [5]) ++
-   (if after_close_ok false false (events c) then [] else [6]))%list.
+   (if after_close_ok false false (events c) then [] else [6]) ++
+   (if deadlock_ok c then [] else [7]))%list.
 
 (* ---- free-running stress results: per thread the list of results (no global order known) *)
 Record scase := { s_progs : list (list op); s_res : list (list obs) }.
@@ -156,4 +184,11 @@ Definition check_stress (c : scase) : list nat :=
    (if forallb (fun l =>
          let rc := flat_map (fun o => match o with OR (RRecv (Some m)) => [m] | _ => [] end) l in
          forallb (fun t => increasingb (map snd (from t rc))) (seq 0 (List.length (s_progs c)))) (s_res c)
-    then [] else [4]))%list.
+    then [] else [4]) ++
+   (* the run FINISHED (every program ran to its end: the closer closed, consumers drained until null): every
+      value whose send reported success was received by somebody *)
+   (if forallb (fun t =>
+         forallb (fun k => match nth_error (s_results c t) k with
+                           | Some (RSent true) => existsb (msg_eqb (t, k)) (s_received c)
+                           | _ => true end) (seq 0 (List.length (nth t (s_progs c) []))))
+       (seq 0 (List.length (s_progs c))) then [] else [5]))%list.
